@@ -68,6 +68,7 @@ type Context struct {
 	chunkActualByteCount   uint64
 	utf8RemainderBacking   [4]byte
 	utf8RemainderBuffer    []byte
+	utf8FirstRuneBacking   [4]byte
 	ValidateArrayDataFunc  func(data []byte)
 
 	// Marker/Reference
